@@ -70,7 +70,10 @@ def data_case(draw, n, d, centre, r=None, spread=1000.0, s0=(0.5, 8.0), mean_gap
         # mean bounded away from zero: first coordinate pushed out of (-gap, gap)
         m0 = draw(gen.qnz(-10, 10, mean_gap))
         mean[0] = m0
-    case["mean"] = mean
+    # the cloud may sit far from the origin compared with its spread (mean / spread up to ~1e5): covariance formulas that
+    # subtract n*m*m^T from X^T X instead of centring first cancel catastrophically there
+    scale = draw(st.sampled_from([1.0, 1.0, 1.0, 1.0e3, 1.0e5]))
+    case["mean"] = [v * scale for v in mean]
     return case
 
 
